@@ -102,55 +102,4 @@ def initializeParts (c : Collect) (mult : List Name) (parts : List Part) : Outco
     pure (if ok then .created invalid else .refused invalid)
 
 
-theorem sortFrom_succ (ns : Bool) (f : Nat) (L : List Name) (i : Nat) :
-    sortFrom ns (f + 1) L i =
-      (match L[i]?, L[i + 1]? with
-       | some a, some v =>
-         if a > v then
-           match sortSwitch ns L i v with
-           | .ok (L', i') => sortFrom ns f L' i'
-           | .crash c => .crash c
-           | .outOfFuel => .outOfFuel
-         else sortFrom ns f L (i + 1)
-       | _, _ => .ok L) := rfl
-
-/-- an already ascending list (aliases that do not change the order, or no alias at all) is left as it is by
-`EntNode::sort`, whichever comparisons `lastSmaller` uses -/
-theorem sortFrom_ascending (ns : Bool) (L : List Name) (h : L.Pairwise (· ≤ ·)) :
-    ∀ (f i : Nat), L.length ≤ f + i → sortFrom ns (f + 1) L i = .ok L := by
-  intro f
-  induction f with
-  | zero =>
-    intro i hi
-    have : L[i]? = none := by simp; omega
-    rw [sortFrom_succ, this]
-  | succ f ih =>
-    intro i hi
-    rw [sortFrom_succ]
-    cases h1 : L[i]? with
-    | none => rfl
-    | some a =>
-      cases h2 : L[i + 1]? with
-      | none => rfl
-      | some v =>
-        have hl1 : i < L.length := (List.getElem?_eq_some_iff.mp h1).1
-        have hl2 : i + 1 < L.length := (List.getElem?_eq_some_iff.mp h2).1
-        have ha : L[i] = a := (List.getElem?_eq_some_iff.mp h1).2
-        have hv : L[i + 1] = v := (List.getElem?_eq_some_iff.mp h2).2
-        have hle : a ≤ v := by
-          have := (List.pairwise_iff_getElem.mp h) i (i + 1) hl1 hl2 (by omega)
-          rw [ha, hv] at this; exact this
-        have hng : ¬ a > v := Nat.not_lt.mpr hle
-        simp only [hng, if_false]
-        exact ih (i + 1) (by omega)
-
-theorem sortNodes_ascending (ns : Bool) (L : List Name) (h : L.Pairwise (· ≤ ·)) : sortNodesWith ns L = .ok L := by
-  unfold sortNodesWith
-  have hlen : L.length ≤ 2 * L.length * L.length + 7 + 0 := by
-    have := Nat.le_mul_self L.length
-    have h2 : 2 * L.length * L.length = L.length * L.length + L.length * L.length := by
-      rw [Nat.mul_assoc, Nat.two_mul]
-    omega
-  exact sortFrom_ascending ns L h (2 * L.length * L.length + 7) 0 hlen
-
 end StepModel.Complex.Match
